@@ -22,7 +22,7 @@ for id in "$@"; do
      (cd "$tmp/r" && PYTHONPATH="$tmp/r/Lib" /venv/bin/python -m pytest -q -p no:cacheprovider -x -n 16 tests 2>&1 | tail -2)
      continue
   fi
-  out=$(cd "$here" && MC_EVIDENCE_DIR="$tmp/ev" VERIF_REPO="$tmp/r" ./check "$id" --tier "$tier" 2>&1)
+  out=$(cd "$here" && MC_EVIDENCE_DIR="$tmp/ev" MC_REPLAY_DIR="$tmp/replays" VERIF_REPO="$tmp/r" ./check "$id" --tier "$tier" 2>&1)
   rc=$?
   nv=$(echo "$out" | grep -c '^VIOLATION')
   echo "$id: exit=$rc violations=$nv $(echo "$out" | grep '^VIOLATION' | head -1)"
